@@ -1,5 +1,5 @@
 (* Executable comparison of what the real SharedDictDataset showed with the model
-   (Model.v, repaired reader) and with the spec (Spec.v).  Used by harness/c19.py.
+   (Model.v, repaired code: fixed = copyfix = true) and with the spec (Spec.v).  Used by harness/c19.py.
    No proofs. *)
 From Coq Require Import ZArith List Bool Arith.
 Import ListNotations.
@@ -12,13 +12,18 @@ Record case_t := {
                                    2 = real processes on the real Manager dict (order unknown: spec only) *)
   c_ids : list Z;               (* the wrapped dataset: sample id at positions 0..n-1 *)
   c_has_tf : bool;              (* transform given? *)
+  c_byref : bool;               (* the payload contains torch tensors: the Manager connection ships them as shared-memory handles *)
+  c_inplace : bool;             (* the transform modifies its argument in place and returns it (always true without transform:
+                                   the sample itself is returned) *)
   c_draws : list (list Z);      (* tickets the transform of process p issued, in order *)
   c_caches : list (list nat);   (* kind 0: the holders of each cache (several datasets over one base) *)
   c_hist : list (nat * cmd);    (* kind 0 *)
   c_progs : list (list cmd);    (* kind 1, 2 *)
-  c_sched : list nat;           (* kind 1 *)
+  c_sched : list nat;           (* kind 1: the schedule that was enforced; kind 2: a schedule found by the harness that is
+                                   claimed to explain the per-process logs (checked here) *)
+  c_lin : bool;                 (* kind 2: such a schedule is supplied *)
   c_log : list ev;              (* observed events in observed order *)
-  c_dicts : list dict           (* observed final content of each cache *)
+  c_dicts : list (list (Z * Z))  (* observed final content of each cache: index -> sample id *)
 }.
 
 (* a Python list as dataset: positions -n..n-1 exist *)
@@ -37,13 +42,16 @@ Fixpoint list_eqb {A} (eqb : A -> A -> bool) (a b : list A) : bool :=
   end.
 
 Definition ev_pid (e : ev) : nat :=
-  match e with ELoad p _ => p | EClear p => p | ERet p _ _ _ => p | ELen p _ => p end.
+  match e with ELoad p _ => p | EClear p => p | ERet p _ _ _ => p | ELen p _ => p | EMut p => p end.
 Definition inb (p : nat) (l : list nat) : bool := existsb (Nat.eqb p) l.
 
-(* same finite map *)
-Definition dict_same (a b : dict) : bool :=
-  forallb (fun kv => match dget (fst kv) b with Some v => v =? snd kv | None => false end) a &&
-  forallb (fun kv => match dget (fst kv) a with Some v => v =? snd kv | None => false end) b.
+(* same finite map (by content) *)
+Fixpoint aget (i : Z) (d : list (Z * Z)) : option Z :=
+  match d with [] => None | (k, v) :: d' => if i =? k then Some v else aget i d' end.
+Definition dict_same (a b : list (Z * Z)) : bool :=
+  forallb (fun kv => match aget (fst kv) b with Some v => v =? snd kv | None => false end) a &&
+  forallb (fun kv => match aget (fst kv) a with Some v => v =? snd kv | None => false end) b.
+Definition final_dict (s : state) : list (Z * Z) := dict_content (hp s) (sd s).
 
 Definition every_accessb (nprocs : nat) (l : list ev) : bool :=
   forallb (fun p => list_eqb Nat.eqb (calls_of p l) (seq 0 (length (calls_of p l)))) (seq 0 nprocs).
@@ -68,19 +76,29 @@ Definition check (c : case_t) : nat :=
                forallb (fun e => existsb (fun ps => inb (ev_pid e) ps) (c_caches c)) (c_log c))
       then 2
       else if forallb (fun '(ps, d) =>
-                         let s := seq_exec true base blen tf draws n (hist_of ps) in
-                         list_eqb ev_eqb (log s) (log_of ps) && dict_same (sd s) d) per_cache
+                         let s := seq_exec true true (c_byref c) (c_inplace c) base blen tf draws n (hist_of ps) in
+                         list_eqb ev_eqb (log s) (log_of ps) && dict_same (final_dict s) d) per_cache
            then 0 else 1
   | S O =>
       let d := match c_dicts c with d :: _ => d | [] => [] end in
       if negb (transparentb base tf draws (c_log c) && dict_okb base d
                && every_accessb (length (c_progs c)) (c_log c))
       then 2
-      else let s := run true base blen tf draws (c_sched c) (init [] (c_progs c)) in
-           if list_eqb ev_eqb (log s) (c_log c) && dict_same (sd s) d then 0 else 1
+      else let s := run true true (c_byref c) (c_inplace c) base blen tf draws (c_sched c) (init [] [] (c_progs c)) in
+           if list_eqb ev_eqb (log s) (c_log c) && dict_same (final_dict s) d then 0 else 1
   | _ =>
+      (* the global order of the events of different processes is unknown: the spec is checked order-free, and the
+         schedule the harness proposes must make the model produce every process' own event sequence and the final
+         cache content (linearisability of the real Manager dict operations w.r.t. the model) *)
       let d := match c_dicts c with d :: _ => d | [] => [] end in
-      if transparentb base tf draws (c_log c) && dict_okb base d
-         && every_accessb (length (c_progs c)) (c_log c)
-      then 0 else 2
+      if negb (transparentb base tf draws (c_log c) && dict_okb base d
+               && every_accessb (length (c_progs c)) (c_log c))
+      then 2
+      else if negb (c_lin c) then 0
+      else let s := run true true (c_byref c) (c_inplace c) base blen tf draws (c_sched c) (init [] [] (c_progs c)) in
+           if forallb (fun p => list_eqb ev_eqb (filter (fun e => Nat.eqb (ev_pid e) p) (log s))
+                                                (filter (fun e => Nat.eqb (ev_pid e) p) (c_log c)))
+                      (seq 0 (length (c_progs c)))
+              && dict_same (final_dict s) d
+           then 0 else 1
   end.
